@@ -71,25 +71,92 @@ theorem cmd_roundtrip' (c : Cmd) (h : c.fits) : parseCmd c.encode = some c := by
 
 /-! ### silent link -/
 
-/-- nothing to read and the replay script is exhausted -/
-def Silent (h : Host) : Prop := h.rx = [] ∧ ∃ cs, h.peer = .script cs ∧ ∀ c ∈ cs, c = []
+/-- nothing to read and the replay script will never release anything -/
+def Silent (h : Host) : Prop :=
+  h.rx = [] ∧ (∀ r ∈ h.rxR, r = []) ∧ ∃ cs, h.peer = .script cs ∧ ∀ c ∈ cs, ∀ r ∈ c, r = []
 
-theorem write_silent (h : Host) (w : Bytes) (hs : Silent h) : Silent (h.write w) := by
-  obtain ⟨h1, cs, h2, h3⟩ := hs
-  unfold Host.write
+theorem flatten_all_nil (c : List Bytes) (h : ∀ r ∈ c, r = []) : c.flatten = [] := by
+  induction c with
+  | nil => rfl
+  | cons x r ih =>
+    have hx : x = [] := h x (by simp)
+    simp [hx, ih (fun q hq => h q (by simp [hq]))]
+
+theorem devWrite_silent (h : Host) (w : Bytes) (hs : Silent h) :
+    Silent (h.devWrite w) ∧ (h.devWrite w).opened = h.opened ∧ (h.devWrite w).ce = h.ce ∧ (h.devWrite w).tr = h.tr ∧
+      (h.devWrite w).packSize = h.packSize := by
+  obtain ⟨h1, h2, cs, h3, h4⟩ := hs
+  unfold Host.devWrite
   cases cs with
-  | nil => simp only [h2]; exact ⟨by simp [h1], [], rfl, by simp⟩
+  | nil =>
+    cases htr : h.tr <;> simp only [h3, htr] <;>
+      exact ⟨⟨by simp [h1], by simpa using h2, [], rfl, by simp⟩, (by first | rfl | trivial | simp [htr]), (by first | rfl | trivial | simp [htr]), (by first | rfl | trivial | simp [htr]), (by first | rfl | trivial | simp [htr])⟩
   | cons c cs =>
-    have hc : c = [] := h3 c (by simp)
-    simp only [h2]
-    exact ⟨by simp [h1, hc], cs, rfl, fun q hq => h3 q (by simp [hq])⟩
+    have hc : ∀ r ∈ c, r = [] := h4 c (by simp)
+    have hcs : ∀ c' ∈ cs, ∀ r ∈ c', r = [] := fun c' hc' => h4 c' (by simp [hc'])
+    cases htr : h.tr <;> simp only [h3, htr]
+    · exact ⟨⟨by simp [h1, flatten_all_nil c hc], by simpa using h2, cs, rfl, hcs⟩, (by first | rfl | trivial | simp [htr]), (by first | rfl | trivial | simp [htr]), (by first | rfl | trivial | simp [htr]), (by first | rfl | trivial | simp [htr])⟩
+    · refine ⟨⟨by simp [h1], ?_, cs, rfl, hcs⟩, (by first | rfl | trivial | simp [htr]), (by first | rfl | trivial | simp [htr]), (by first | rfl | trivial | simp [htr]), (by first | rfl | trivial | simp [htr])⟩
+      intro r hr
+      simp only [List.mem_append] at hr
+      rcases hr with hr | hr
+      · exact h2 r hr
+      · exact hc r hr
+
+theorem foldl_devWrite_silent (fs : List Bytes) (h : Host) (hs : Silent h) :
+    Silent (fs.foldl (fun x f => x.devWrite f) h) ∧ (fs.foldl (fun x f => x.devWrite f) h).opened = h.opened ∧
+      (fs.foldl (fun x f => x.devWrite f) h).ce = h.ce ∧ (fs.foldl (fun x f => x.devWrite f) h).tr = h.tr ∧
+      (fs.foldl (fun x f => x.devWrite f) h).packSize = h.packSize := by
+  induction fs generalizing h with
+  | nil => exact ⟨hs, rfl, rfl, rfl, rfl⟩
+  | cons f fs ih =>
+    obtain ⟨a, b, c, d, e⟩ := devWrite_silent h f hs
+    obtain ⟨a', b', c', d', e'⟩ := ih (h.devWrite f) a
+    exact ⟨a', b'.trans b, c'.trans c, d'.trans d, e'.trans e⟩
+
+/-- writing a command / data never fails on a silent link unless the packet cannot be encoded, and stays silent -/
+theorem sendFrame_silent (rid : Nat) (w : Bytes) (h : Host) (hs : Silent h) :
+    ∃ r h', sendFrame rid w h = (r, h') ∧ Silent h' ∧ h'.opened = h.opened ∧ h'.ce = h.ce := by
+  unfold sendFrame
+  cases htr : h.tr with
+  | serial =>
+    obtain ⟨a, b, c, _, _⟩ := devWrite_silent h w hs
+    refine ⟨.ok (), h.write w, rfl, ?_, ?_, ?_⟩
+    · exact ⟨a.1, a.2.1, a.2.2⟩
+    · exact b
+    · exact c
+  | hid =>
+    simp only
+    by_cases hp : h.packSize = 0 ∧ ¬ w.isEmpty = true
+    · rw [if_pos hp]; exact ⟨_, h, rfl, hs, rfl, rfl⟩
+    · rw [if_neg hp]
+      obtain ⟨a, b, c, _, _⟩ := foldl_devWrite_silent (hidFrames rid h.packSize w) h hs
+      exact ⟨_, _, rfl, a, b, c⟩
 
 theorem protoRead_silent (h : Host) (n : Nat) (hs : Silent h) :
-    protoRead n h = (.error .other, { h with rx := [] }) := by
+    ∃ h', protoRead n h = (.error .other, h') ∧ Silent h' ∧ h'.opened = h.opened ∧ h'.ce = h.ce := by
   unfold protoRead
-  simp [hs.1]
+  cases htr : h.tr with
+  | serial =>
+    refine ⟨{ h with rx := [] }, by simp only [htr]; simp [hs.1], ⟨rfl, hs.2.1, hs.2.2⟩, rfl, rfl⟩
+  | hid =>
+    cases hr : h.rxR with
+    | nil => exact ⟨h, by simp only [htr, hr], hs, rfl, rfl⟩
+    | cons r rs =>
+      have : r = [] := hs.2.1 r (by simp [hr])
+      subst this
+      refine ⟨{ h with rxR := rs }, by simp only [htr, hr], ⟨hs.1, ?_, hs.2.2⟩, rfl, rfl⟩
+      intro q hq
+      exact hs.2.1 q (by simp [hr, hq])
 
-theorem silent_rx_nil (h : Host) (hs : Silent h) : Silent { h with rx := [] } := ⟨rfl, hs.2⟩
+theorem writeCommand_silent (c : Cmd) (h : Host) (hs : Silent h) :
+    ∃ r h', writeCommand c h = (r, h') ∧ Silent h' := by
+  unfold writeCommand
+  by_cases hf : c.fits
+  · rw [if_pos hf]
+    obtain ⟨r, h', e, s', _, _⟩ := sendFrame_silent Spec.ridCmd c.encode h hs
+    exact ⟨r, h', e, s'⟩
+  · rw [if_neg hf]; exact ⟨_, h, rfl, hs⟩
 
 theorem processCmd_silent (h : Host) (c : Cmd) (hs : Silent h) : (processCmd c h).1 = .error .conn := by
   unfold processCmd
@@ -97,12 +164,15 @@ theorem processCmd_silent (h : Host) (c : Cmd) (hs : Silent h) : (processCmd c h
   by_cases ho : h.opened = true
   · have hno : ¬ ¬ h.opened = true := fun x => x ho
     rw [if_neg hno]
-    simp only [bind_run, modify_run, guardConn_run, writeCommand]
-    have hs1 : Silent { h with status := Spec.stSuccess } := ⟨hs.1, hs.2⟩
-    by_cases hf : c.fits
-    · simp only [hf, if_true, sendFrame, modify_run,
-        protoRead_silent _ 0 (write_silent _ c.encode hs1)]
-    · simp only [hf, if_false, fail_run]
+    simp only [bind_run, modify_run, guardConn_run]
+    have hs1 : Silent { h with status := Spec.stSuccess } := ⟨hs.1, hs.2.1, hs.2.2⟩
+    obtain ⟨r, h1, e1, s1⟩ := writeCommand_silent c _ hs1
+    rw [e1]
+    cases r with
+    | error e => rfl
+    | ok u =>
+      obtain ⟨h2, e2, _, _, _⟩ := protoRead_silent h1 0 s1
+      simp only [e2]
   · simp [ho]
 
 theorem sendData_silent (h : Host) (c : Cmd) (d : Bytes) (hs : Silent h) : (sendData c d h).1 = .error .conn := by
@@ -111,16 +181,25 @@ theorem sendData_silent (h : Host) (c : Cmd) (d : Bytes) (hs : Silent h) : (send
   by_cases ho : h.opened = true
   · have hno : ¬ ¬ h.opened = true := fun x => x ho
     rw [if_neg hno]
-    simp only [bind_run, modify_run, guardConn_run, writeCommand]
-    have hs1 : Silent { h with status := Spec.stSuccess } := ⟨hs.1, hs.2⟩
-    by_cases hf : c.fits
-    · simp only [hf, if_true, sendFrame, modify_run,
-        protoRead_silent _ 0 (write_silent _ d (write_silent _ c.encode hs1))]
-    · simp only [hf, if_false, fail_run]
+    simp only [bind_run, modify_run, guardConn_run]
+    have hs1 : Silent { h with status := Spec.stSuccess } := ⟨hs.1, hs.2.1, hs.2.2⟩
+    obtain ⟨r, h1, e1, s1⟩ := writeCommand_silent c _ hs1
+    rw [e1]
+    cases r with
+    | error e => rfl
+    | ok u =>
+      obtain ⟨r2, h2, e2, s2, _, _⟩ := sendFrame_silent Spec.ridData d h1 s1
+      simp only [e2]
+      cases r2 with
+      | error e => rfl
+      | ok u2 =>
+        obtain ⟨h3, e3, _, _, _⟩ := protoRead_silent h2 0 s2
+        simp only [e3]
   · simp [ho]
 
-/-- on a silent link every SDP operation raises SdpConnectionError -/
-theorem runOp_silent (h : Host) (op : Op) (hs : Silent h) : (runOp op h).1 = .error .conn := by
+/-- on a silent link every SDP operation (SDPS writes only and is excluded) raises SdpConnectionError -/
+theorem runOp_silent (h : Host) (op : Op) (hs : Silent h) (hop : ∀ nc ps d, op ≠ .sdpsWriteFile nc ps d) :
+    (runOp op h).1 = .error .conn := by
   cases op with
   | read a n f =>
     have := processCmd_silent h ⟨Spec.cReadRegister, a, f, n, 0⟩ hs
@@ -162,6 +241,7 @@ theorem runOp_silent (h : Host) (op : Op) (hs : Silent h) : (runOp op h).1 = .er
     simp only [runOp, bind_run]
     rcases hp : processCmd ⟨Spec.cErrorStatus, 0, 0, 0, 0⟩ h with ⟨r, h1⟩
     rw [hp] at this; simp only at this; subst this; rfl
+  | sdpsWriteFile nc ps d => exact absurd rfl (hop nc ps d)
 
 /-- `write` / `skip_dcd` return `True` only if the status word read from the device is the OK value -/
 theorem statusTail_true (st okv failSt : Nat) (h h' : Host) (hr : statusTail st okv failSt h = (.ok (.bool true), h')) :
@@ -185,7 +265,17 @@ theorem readDataLoop_length (length f : Nat) (acc d : Bytes) (h h' : Host)
       rw [hp] at hr
       cases r with
       | error e => simp at hr
-      | ok x => exact ih _ _ hr
+      | ok x =>
+        simp only at hr
+        by_cases hh : ¬ x.1 = true
+        · rw [if_pos hh] at hr; exact ih _ _ hr
+        · rw [if_neg hh] at hr
+          cases hv : respValue x.2 with
+          | error e => rw [hv] at hr; simp at hr
+          | ok v =>
+            rw [hv] at hr
+            simp only [bind_run, modify_run] at hr
+            exact ih _ _ hr
     · simp only [hl, if_false, pure_run, Prod.mk.injEq, Except.ok.injEq] at hr
       obtain ⟨rfl, _⟩ := hr
       simp; omega
